@@ -350,11 +350,6 @@ ORDERED = {'union': lambda p: len(p['names']), 'join': lambda p: len(p['conns'])
 
 # --------------------------------------------------------------------------- correspondence: the memo model
 
-def memo_keys_recipe():
-    """an extra job understood by the worker through the generic recipes is not needed: the classes of ==/hash are
-    computed by asking for printed keys; see `corr_objects`"""
-
-
 def correspondence(ctx):
     c = Corr()
     rng = ctx.rng
